@@ -819,6 +819,7 @@ func (as *AbacoSource) Configure(config *AbacoSourceConfig) (err error) {
 
 // distributePackets sorts a slice of Abaco packets into the data queues according to the GroupIndex.
 func (as *AbacoSource) distributePackets(allpackets []*packets.Packet, now time.Time) {
+	verifAccess("abaco:distributePackets", true)
 	for _, p := range allpackets {
 		if p.IsExternalTrigger() {
 			as.eTrigPackets = append(as.eTrigPackets, p)
@@ -1091,6 +1092,7 @@ awaitmoredata:
 			// Convert the queued external-trigger packets here, in the goroutine that queues them and
 			// keeps the groups' frame-timing correspondence up to date (distributePackets), and hand the
 			// result to the block-assembly goroutine along with the data.
+			verifAccess("sync:buffersChan", true)
 			as.buffersChan <- AbacoBuffersType{
 				datacopies:       datacopies,
 				lastSampleTime:   lastSampleTime,
@@ -1119,7 +1121,9 @@ awaitmoredata:
 // for Lancero), we'll also want to handle those changes in this loop.
 func (as *AbacoSource) getNextBlock() chan *dataBlock {
 	panicTime := time.Duration(cap(as.buffersChan)) * as.readPeriod
+	verifAccess("sync:go:getNextBlock", true)
 	go func() {
+		verifAccess("sync:go:getNextBlock", false)
 		for {
 			select {
 			case <-time.After(panicTime):
@@ -1138,7 +1142,9 @@ func (as *AbacoSource) getNextBlock() chan *dataBlock {
 				}
 
 				// as.buffersChan contained valid data, so act on it.
+				verifAccess("sync:buffersChan", false)
 				block := as.distributeData(buffersMsg)
+				verifAccess("sync:nextBlock", true)
 				as.nextBlock <- block
 				if block.err != nil {
 					close(as.nextBlock)
@@ -1151,6 +1157,7 @@ func (as *AbacoSource) getNextBlock() chan *dataBlock {
 }
 
 func (as *AbacoSource) extractExternalTriggers() []int64 {
+	verifAccess("abaco:extractExternalTriggers", true)
 	externalTriggers := make([]int64, 0)
 	for _, p := range as.eTrigPackets {
 		// These packets have form (u32, u32, u64) repeating, but we don't care about the first 2.
@@ -1199,6 +1206,7 @@ func (as *AbacoSource) distributeData(buffersMsg AbacoBuffersType) *dataBlock {
 	// Every channel holds framesUsed samples. Set the block's sample count once, here: the per-channel
 	// goroutines below must not all write the same field of the block (a data race).
 	block.nSamp = framesUsed
+	verifAccess("abaco:blockhdr", true)
 
 	// The external triggers were extracted from the queue of relevant packets by the reader goroutine.
 	externalTriggers := buffersMsg.externalTriggers
@@ -1208,13 +1216,17 @@ func (as *AbacoSource) distributeData(buffersMsg AbacoBuffersType) *dataBlock {
 
 	// Read the shared frame counter once, here (the packet reader loads it concurrently).
 	firstFrame := FrameIndex(atomic.LoadInt64((*int64)(&as.nextFrameNum)))
+	verifAccess("nextFrameNum", false)
 
 	// TODO: we should loop over devices here, matching devices to channels.
 	var wg sync.WaitGroup
 	for channelIndex := 0; channelIndex < nchan; channelIndex++ {
 		wg.Add(1)
+		verifAccess(as.chanNames[channelIndex], true)
 		go func(channelIndex int) {
 			defer wg.Done()
+			verifAccess(as.chanNames[channelIndex], false)
+			defer verifAccess(as.chanNames[channelIndex], true)
 			data := datacopies[channelIndex]
 			seg := DataSegment{
 				rawData:         data,
@@ -1229,6 +1241,8 @@ func (as *AbacoSource) distributeData(buffersMsg AbacoBuffersType) *dataBlock {
 		}(channelIndex)
 	}
 	wg.Wait()
+	verifAccess("sync:wg:distributeData", false)
+	verifAccess("nextFrameNum", true)
 	atomic.AddInt64((*int64)(&as.nextFrameNum), int64(framesUsed)) // read concurrently by distributePackets
 	if as.heartbeats != nil {
 		pmb := float64(buffersMsg.totalBytes) / 1e6
